@@ -1496,6 +1496,21 @@ def rule_nanfinal(ctx) -> RuleResult:
             g = f"{f.unit.name}.{norm(c.func)}"
             if g in ctx.prog.funcs and g not in seen:
                 work.append(g)
+    # clamp clause: a finalizer that computes a variance as a DIFFERENCE of accumulated squares (sumsq - sum**2 / n) can come out a few ulp below
+    # zero for a group of (nearly) equal members; the eager kernels do not, and the square root of it is NaN.  Such a finalizer clamps the result at
+    # zero with a NaN-propagating primitive (np.maximum / np.clip) before it is returned.
+    for q in sorted(seen):
+        f = ctx.prog.funcs[q]
+        diff = [b for b in ast.walk(f.node) if isinstance(b, ast.BinOp) and isinstance(b.op, ast.Sub)
+                and any(isinstance(x, ast.BinOp) and isinstance(x.op, ast.Pow) for x in ast.walk(b.right))]
+        if not diff:
+            continue
+        clamps = [c for c in calls_in(f.node) if norm(c.func) in ("np.maximum", "np.clip") and any(isinstance(a, ast.Constant) and a.value == 0 for a in c.args)]
+        res.inst(f"{q}: difference-of-squares form '{norm(diff[0])[:40]}' clamped at zero with a NaN-propagating primitive: {bool(clamps)}", f"{q}|clamp")
+        if not clamps:
+            res.report(f"{q}|difference-of-squares-not-clamped", f.where(diff[0]), q,
+                       f"'{norm(diff[0])[:50]}' can round to a tiny negative number for a group of (nearly) equal members: the chunked var is then negative and std NaN "
+                       "(groupby_reduce(dask [c, c, c], func='std') -> nan for 46 of 300 random constants c), while the eager result is 0")
     return res
 
 
